@@ -838,6 +838,19 @@ where
             router.execute(api, write_cache, block, contract.clone(), msg)
         });
 
+        #[cfg(feature = "verif")]
+        crate::verif::monitor_note(
+            "sub",
+            match reply_on {
+                ReplyOn::Always => "always",
+                ReplyOn::Success => "success",
+                ReplyOn::Error => "error",
+                ReplyOn::Never => "never",
+            },
+            sub_message_result.is_ok(),
+            id,
+        );
+
         // call reply if meaningful
         if let Ok(mut r) = sub_message_result {
             if matches!(reply_on, ReplyOn::Always | ReplyOn::Success) {
@@ -894,6 +907,9 @@ where
         contract: Addr,
         reply: Reply,
     ) -> AnyResult<AppResponse> {
+        #[cfg(feature = "verif")]
+        crate::verif::monitor_note("reply", "", reply.result.is_ok(), reply.id);
+
         let ok_attr = if reply.result.is_ok() {
             "handle_success"
         } else {
